@@ -1242,7 +1242,16 @@ class ConfigInformation:
             workspace.run_mode if run_mode is None else run_mode
         ) or RunMode.NORMAL
         if run_mode == RunMode.NORMAL:
-            other = experiment.CURRENT.submit(self.job)
+            try:
+                other = experiment.CURRENT.submit(self.job)
+            except Exception:
+                # Refused by the scheduler: the task has not been submitted (it
+                # must not be taken for a submitted task by the tasks it is
+                # given to: they would wait for ever for a job nobody runs)
+                self.job = None
+                self.task = None
+                self._taskoutput = None
+                raise
             if other:
                 # Already submitted: this object stands for the registered job
                 self.job = other
